@@ -178,6 +178,9 @@ def run_corr(domain, n, seed, tier, corr_bin=None, extra_env=None, stdin_ops=Non
             continue
         op, res = line.split("\t", 1)
         out.append((op, res))
+    if p.returncode != 0 and out and out[-1][1] == "":
+        # the process ended inside this op (the line is written before the op runs)
+        out[-1] = (out[-1][0], "exit:%d" % p.returncode)
     return p.returncode, out, p.stderr
 
 
